@@ -189,7 +189,7 @@ func workerMain(args []string) {
 		if *deadlineMs > 0 && time.Now().UnixMilli() > *deadlineMs {
 			break
 		}
-		cfg := chk.Configs[int(idx%int64(len(chk.Configs)))]
+		cfg := chk.ConfigOf(idx)
 		rs := core.RunSeed(*seed, chk.ID, uint64(idx))
 		curRun, curSeed, curCfg = idx, rs, cfg
 		tape := core.NewGenTape(rs, false)
@@ -726,30 +726,23 @@ func minimiseAndWrite(self string, chk *checks.Check, f *Found, tier string, see
 // ---------------------------------------------------------------- evidence
 
 func writeEvidence(chk *checks.Check, tier string, seed uint64, tot *WorkerOut, distinct int, knownHit map[string]int64, newViol int, wall float64, detPairs, detMismatch, workers int) error {
-	// samples: re-execute the first runs of each config verbosely (throw-away stats)
+	// samples: re-execute verbosely (throw-away stats) the first run of each configuration, at least 3 runs
 	var samples []interface{}
-	for i := 0; i < len(chk.Configs) && i < 3; i++ {
-		idx := int64(i)
+	seen := map[string]bool{}
+	for idx := int64(0); idx < 4096 && (len(samples) < 3 || len(seen) < len(chk.Configs)) && len(samples) < 6; idx++ {
+		cfg := chk.ConfigOf(idx)
+		if seen[cfg] && len(seen) < len(chk.Configs) {
+			continue
+		}
+		seen[cfg] = true
 		rs := core.RunSeed(seed, chk.ID, uint64(idx))
-		c, _ := checks.Execute(chk, chk.Configs[i], tier, core.NewGenTape(rs, false), core.NewStats(), true)
+		c, _ := checks.Execute(chk, cfg, tier, core.NewGenTape(rs, false), core.NewStats(), true)
 		lines := c.Lines
 		if len(lines) > 30 {
 			lines = append(lines[:30:30], fmt.Sprintf("… %d more lines", len(c.Lines)-30))
 		}
-		samples = append(samples, map[string]interface{}{"run_index": idx, "run_seed": rs, "config": chk.Configs[i],
+		samples = append(samples, map[string]interface{}{"run_index": idx, "run_seed": rs, "config": cfg,
 			"events": c.Seq, "trace_hash": strconv.FormatUint(c.TraceHash(), 16), "rendering": lines})
-	}
-	if len(chk.Configs) == 1 {
-		for idx := int64(1); idx < 3; idx++ {
-			rs := core.RunSeed(seed, chk.ID, uint64(idx))
-			c, _ := checks.Execute(chk, chk.Configs[0], tier, core.NewGenTape(rs, false), core.NewStats(), true)
-			lines := c.Lines
-			if len(lines) > 30 {
-				lines = append(lines[:30:30], fmt.Sprintf("… %d more lines", len(c.Lines)-30))
-			}
-			samples = append(samples, map[string]interface{}{"run_index": idx, "run_seed": rs, "config": chk.Configs[0],
-				"events": c.Seq, "trace_hash": strconv.FormatUint(c.TraceHash(), 16), "rendering": lines})
-		}
 	}
 	cov := map[string]interface{}{
 		"evaluations":               tot.Runs + int64(tot.PrePass),
